@@ -66,6 +66,7 @@ def catalogue():
         'dr_plot': lambda i: pgc.dr_plot(i)['pore_volume'],
         'henry': lambda i: pgc.initial_henry_slope(i, max_adjrms=0.1),
         'model_iso(Henry)': lambda i: pgm.model_iso(i, model='Henry').model.params['K'],
+        'whittaker(point)': lambda i: pgc.enthalpy_sorption_whittaker(i, model='Toth', loading=[2.0, 4.0])['enthalpy_sorption'],
         'sat_p(70K)': lambda i: i.adsorbate.saturation_pressure(70.0),
         'liquid_density(80K)': lambda i: i.adsorbate.liquid_density(80.0),
     }
@@ -112,14 +113,17 @@ def pairs_on_real_isotherms(seed, thorough=False):
     Q = catalogue()
     names = list(Q)
     rnd = random.Random(seed)
-    cheap = [n for n in names if n not in ('psd_dft', 'psd_meso', 'model_iso(Henry)', 'to_csv', 'henry')]
+    cheap = [n for n in names if n not in ('psd_dft', 'psd_meso', 'model_iso(Henry)', 'to_csv', 'henry', 'whittaker(point)')]
     pairs = [(a, b) for a in cheap for b in cheap]
     heavy = [n for n in names if n not in cheap]
     pairs += [(a, b) for a in heavy for b in ('spreading(1e-9)', 'loading_at(0.3)', 'iso_id', 'sat_p(70K)')]
     pairs += [(a, b) for a in ('loading_at(1e-9,fill=0)', 'sat_p(70K)', 'liquid_density(80K)') for b in heavy]
+    always = [(a, 'whittaker(point)') for a in ('sat_p(70K)', 'pressure(ads,Pa)', 'whittaker(point)', 'to_json')]
+    pairs = [pr for pr in pairs if pr not in always]
     if not thorough:
         rnd.shuffle(pairs)
         pairs = pairs[:160]
+    pairs += always
     for a, b in pairs:
         ok, detail = pair_case(base, Q, a, b)
         yield {'name': f"{b}|after:{a}", 'ok': ok, 'detail': detail}
@@ -268,6 +272,85 @@ def _process_state_worker():
     finally:
         for m_, n_, r_ in reals:
             setattr(m_, n_, r_)
+
+
+_FIRST = r'''
+import json, sys, warnings
+warnings.filterwarnings('ignore')
+import numpy, pygaps, pygaps.characterisation as pgc
+pygaps.logger.disabled = True
+from pgv.replayers import c04
+
+
+def meth():
+    p = numpy.geomspace(1e3, 2e6, 30)
+    l = 5.0 * 3e-6 * p / (1 + (3e-6 * p) ** 0.8) ** (1 / 0.8)
+    return pygaps.PointIsotherm(pressure=list(p / 100), loading=list(l), material='pgv_c04', adsorbate='methane', temperature=298.15, pressure_mode='absolute',
+                                pressure_unit='mbar', loading_basis='molar', loading_unit='mmol', material_basis='mass', material_unit='g', temperature_unit='K')
+
+
+Q = {
+    'whittaker(point isotherm)': lambda: [round(float(v), 6) for v in pgc.enthalpy_sorption_whittaker(meth(), model='Toth', loading=[1.0, 2.0])['enthalpy_sorption']],
+    'relative pressures': lambda: [round(float(v), 9) for v in meth().pressure(pressure_mode='relative')[:3]],
+    'loading in cm3 gas': lambda: [round(float(v), 6) for v in meth().loading(loading_basis='volume_gas', loading_unit='cm3')[:3]],
+    'saturation pressure': lambda: round(float(pygaps.Adsorbate.find('methane').saturation_pressure(150.0)), 3),
+    'area_BET(MCM-41)': lambda: round(float(pgc.area_BET(c04._load())['area']), 6),
+}
+
+
+def run(name):
+    try:
+        return ['value', Q[name]()]
+    except Exception as exc:
+        return ['error', type(exc).__name__]
+
+
+which = sys.argv[1]
+if which == 'ALL':
+    order = list(Q)
+    out = {}
+    for k in order[1:] + order[:1]:      # the first query of the list comes last, after every other one
+        out[k] = run(k)
+    for k in order:                        # and each one once more
+        out[k + ' (second time)'] = run(k)
+    print('PGV-JSON' + json.dumps(out))
+else:
+    print('PGV-JSON' + json.dumps({which: run(which)}))
+'''
+
+
+def first_in_process_cases():
+    """the outcome of a query issued as the very first thing in a fresh interpreter equals its outcome after other queries (on other
+    isotherms of the same adsorbate) in a long-lived one -- the state the library keeps per process (thermodynamic backends,
+    registries, caches) does not show"""
+    import json
+    import subprocess
+    import sys
+    root = os.path.dirname(os.path.dirname(os.path.dirname(os.path.abspath(__file__))))
+    env = dict(os.environ, PYTHONPATH=f"{REPO}/src:{root}", PGV_REPO=REPO)
+
+    def sub(arg):
+        p = subprocess.run([sys.executable, '-c', _FIRST, arg], capture_output=True, text=True, env=env, timeout=900)
+        line = [ln for ln in p.stdout.splitlines() if ln.startswith('PGV-JSON')]
+        return json.loads(line[-1][8:]) if line else {'__error__': (p.stderr or p.stdout)[-300:]}
+    names = ['whittaker(point isotherm)', 'relative pressures', 'loading in cm3 gas', 'saturation pressure', 'area_BET(MCM-41)']
+    long_lived = sub('ALL')
+    if '__error__' in long_lived:
+        yield {'name': 'first_in_process|harness', 'ok': False, 'detail': long_lived['__error__']}
+        return
+    for n in names:
+        fresh = sub(n).get(n)
+        later, again = long_lived.get(n), long_lived.get(n + ' (second time)')
+        ok = fresh == later == again
+        yield {'name': f"first_in_process|{n}", 'ok': ok, 'detail': '' if ok else f"first in a fresh process: {fresh}; after other queries: {later}; once more: {again}"}
+
+
+@replayer('c04.first')
+def _first(spec, model):
+    for r in first_in_process_cases():
+        if r['name'] == spec['name']:
+            return {'confirmed': not r['ok'], 'observed': r['detail'], 'expected': 'the same outcome whether or not other queries came first'}
+    return {'confirmed': False, 'error': 'case not found'}
 
 
 def process_state_cases():
